@@ -6,13 +6,9 @@ package main
 //   (*core.info).Hash        -> 20 bytes: uninterpreted function of the fields
 //                               (real SHA-1 of a canonical flattening when all
 //                               fields are concrete)
-//   (*core.MetaInfo).Serialize / core.DeserializeMetaInfo
-//                            -> an opaque injective byte encoding of the info
-//                               struct with the two properties of the JSON form
-//                               the stores rely on: decode(encode(x)) == x and
-//                               every strict prefix (including the empty file)
-//                               or foreign content fails to decode.
-// Harnesses must not compare info hashes or sidecar bytes against literals.
+//   The JSON sidecar encoding (json.Marshal/Unmarshal of core.metaInfoJSON) is
+//   modelled in model_metainfo.go.
+// Harnesses must not compare info hashes against literals.
 
 import (
 	"crypto/sha1"
@@ -113,95 +109,5 @@ func init() {
 	regIfAbsent("(*"+cp+".info).Hash", func(m *Machine, fr *frame, a []Value) Value {
 		info := (*m.cellPtr(a[0])).(Struct)
 		return Tuple{m.infoHashOf(info), Iface{}}
-	})
-	regIfAbsent("(*"+cp+".MetaInfo).Serialize", func(m *Machine, fr *frame, a []Value) Value {
-		mt := m.coreType("MetaInfo")
-		mi := (*m.cellPtr(a[0])).(Struct)
-		info := mi[fieldIndex(mt, "info")].(Struct)
-		m.res.Notes["MetaInfo JSON sidecar encoding modelled as an opaque injective, prefix-rejecting byte encoding"] = true
-		var out []Value
-		for i := 0; i < len(miMagic); i++ {
-			out = append(out, uint64(miMagic[i]))
-		}
-		out = append(out, m.infoFlatten(info, m.coreType("info"))...)
-		out = append(out, uint64('}'))
-		return Tuple{Slice{a: out}, Iface{}}
-	})
-	regIfAbsent(cp+".DeserializeMetaInfo", func(m *Machine, fr *frame, a []Value) Value {
-		data := a[0].(Slice).a
-		fail := func(msg string) Value {
-			return Tuple{(*Value)(nil), m.goErr(fr, "json: "+msg)}
-		}
-		conc := func(b []Value) (uint64, bool) {
-			cb, ok := allConcrete(b)
-			if !ok {
-				m.unsupported("DeserializeMetaInfo: symbolic structure bytes")
-			}
-			var x uint64
-			for _, c := range cb {
-				x = x<<8 | uint64(c)
-			}
-			return x, true
-		}
-		pos := 0
-		need := func(n int) bool { return pos+n <= len(data) }
-		if !need(len(miMagic)) {
-			return fail("unexpected end of JSON input")
-		}
-		for i := 0; i < len(miMagic); i++ {
-			c, ok := data[i].(uint64)
-			if !ok {
-				m.unsupported("DeserializeMetaInfo: symbolic magic")
-			}
-			if byte(c) != miMagic[i] {
-				return fail("invalid character")
-			}
-		}
-		pos = len(miMagic)
-		if !need(18) {
-			return fail("unexpected end of JSON input")
-		}
-		pieceLen := m.bytesWord(data[pos : pos+8])
-		length := m.bytesWord(data[pos+8 : pos+16])
-		nl, _ := conc(data[pos+16 : pos+18])
-		pos += 18
-		if !need(int(nl) + 4) {
-			return fail("unexpected end of JSON input")
-		}
-		name := mkStr(data[pos : pos+int(nl)])
-		pos += int(nl)
-		cnt, _ := conc(data[pos : pos+4])
-		pos += 4
-		if !need(4*int(cnt) + 1) {
-			return fail("unexpected end of JSON input")
-		}
-		sums := make([]Value, cnt)
-		for i := range sums {
-			sums[i] = m.bytesWord(data[pos : pos+4])
-			pos += 4
-		}
-		if c, ok := data[pos].(uint64); !ok || byte(c) != '}' || pos+1 != len(data) {
-			return fail("invalid character after top-level value")
-		}
-		it := m.coreType("info")
-		info := zero(it).(Struct)
-		info[fieldIndex(it, "PieceLength")] = pieceLen
-		info[fieldIndex(it, "Length")] = length
-		info[fieldIndex(it, "Name")] = name
-		info[fieldIndex(it, "PieceSums")] = Slice{a: sums, nil: cnt == 0}
-		// d, err := NewSHA256DigestFromHex(j.Info.Name)
-		pk := m.prog.ImportedPackage(cp)
-		r := m.callSSA(fr, pk.Func("NewSHA256DigestFromHex"), []Value{name}, nil).(Tuple)
-		if e, ok := r[1].(Iface); ok && e.t != nil {
-			return Tuple{(*Value)(nil), m.goErr(fr, "parse name: invalid digest")}
-		}
-		mt := m.coreType("MetaInfo")
-		mi := zero(mt).(Struct)
-		mi[fieldIndex(mt, "info")] = info
-		mi[fieldIndex(mt, "infoHash")] = m.infoHashOf(info)
-		mi[fieldIndex(mt, "digest")] = r[0]
-		p := new(Value)
-		*p = mi
-		return Tuple{p, Iface{}}
 	})
 }
